@@ -70,12 +70,12 @@ type FakeStream struct {
 	FailErr    error
 	// KeepOpenAfterCloseSend models a server that does not end the RPC on half-close.
 	KeepOpenAfterCloseSend bool
-	nSend      int
-	broken     error
-	closedSend bool
-	queue      []recvItem
-	nRecvCalls int
-	nRecvDone  int
+	nSend                  int
+	broken                 error
+	closedSend             bool
+	queue                  []recvItem
+	nRecvCalls             int
+	nRecvDone              int
 }
 
 // NewFakeStream creates a stream.
